@@ -650,6 +650,8 @@ class World:
             np.set_printoptions(formatter={"float": "{: 0.3f}".format, "float_kind": "{: 0.3f}".format})
         elif kind == "threshold":
             np.set_printoptions(threshold=3, edgeitems=1, linewidth=40)
+        elif kind == "legacy113":
+            np.set_printoptions(legacy="1.13")
         self._installed = True
         return self
 
